@@ -638,14 +638,22 @@ static int wl_alnew(struct rep *r, int size, long k1, long k2)
 	return 1;
 }
 
-/* array ops: kind 'a' add, 'p' put_idx, 'i' insert_idx, 's' shrink */
+/* array ops: kind 'a' add, 'p' put_idx, 'i' insert_idx, 's' shrink; 'P' / 'I' = put_idx / insert_idx on an array
+ * that was shrunk to its exact length first (as the parser leaves every array): capacity == length, so that
+ * replacing the last element / inserting anywhere has to grow the slot buffer */
 static int wl_arr(struct rep *r, char kind, int n, long arg, long k1, long k2)
 {
 	struct json_object *a = mk_array(n);
 	struct json_object *v = kind == 's' ? NULL : json_object_new_string("new");
+	struct json_object *a2 = mk_array(n);
+	if (kind == 'P' || kind == 'I')
+	{
+		json_object_array_shrink(a, 0);
+		json_object_array_shrink(a2, 0);
+		kind = kind == 'P' ? 'p' : 'i';
+	}
 	char *pre = dump_str(a);
 	/* reference result */
-	struct json_object *a2 = mk_array(n);
 	int rc2 = kind == 'a'   ? json_object_array_add(a2, json_object_new_string("new"))
 	          : kind == 'p' ? json_object_array_put_idx(a2, (size_t)arg, json_object_new_string("new"))
 	          : kind == 'i' ? json_object_array_insert_idx(a2, (size_t)arg, json_object_new_string("new"))
@@ -1113,6 +1121,8 @@ static int dispatch(struct rep *r, int nw, char **w)
 	if (!strcmp(n, "aput") && na == 2) return wl_arr(r, 'p', atoi(a[0]), atol(a[1]), k1, k2);
 	if (!strcmp(n, "ains") && na == 2) return wl_arr(r, 'i', atoi(a[0]), atol(a[1]), k1, k2);
 	if (!strcmp(n, "ashrink") && na == 2) return wl_arr(r, 's', atoi(a[0]), atol(a[1]), k1, k2);
+	if (!strcmp(n, "asput") && na == 2) return wl_arr(r, 'P', atoi(a[0]), atol(a[1]), k1, k2);
+	if (!strcmp(n, "asins") && na == 2) return wl_arr(r, 'I', atoi(a[0]), atol(a[1]), k1, k2);
 	if (!strcmp(n, "lhnew") && na == 1) return wl_lhnew(r, atoi(a[0]), k1, k2);
 	if (!strcmp(n, "lhresize") && na == 3) return wl_lh(r, 'r', atoi(a[0]), atoi(a[1]), atoi(a[2]), k1, k2);
 	if (!strcmp(n, "lhins") && na == 2) return wl_lh(r, 'i', atoi(a[0]), atoi(a[1]), 0, k1, k2);
